@@ -20,6 +20,7 @@ CHECKS = {
  "C11": ("model_checking", SESS, "DESIGN.md 5 C11", "TLA+ spec + TLC bounded program space (print lists), TLC trace validation"),
  "C12": ("model_checking", SESS, "DESIGN.md 5 C12", "TLA+ spec + TLC action properties RunIsFresh/ClearIsInit/NewIsEmpty, TLC trace validation"),
  "C13": ("model_checking", SESS, "DESIGN.md 5 C13", "TLA+ spec + TLC InterruptTransparent; exhaustive interrupt sweep on the code validated by TLC trace validation"),
+ "C16": ("model_checking", "The model scanner (BasicLex) reads the canonical lines of sampled programs; MC_C16 derives the spelling variants the manual allows (case, optional blanks, ? ' GO TO GO SUB =< => < >, optional LET, lower-case exponent / hex) and TLC checks SpellingSound on the model; every variant is fed to the real lexer / lister / parser (same listing, same AST as the canonical text) and whole sessions are re-typed in each spelling and trace-validated against the AST-level abstract machine (they run identically).", "DESIGN.md 5 C16", "TLA+ model scanner + TLC-derived spelling variants, spec-to-implementation replay + TLC trace validation"),
  "C17": ("model_checking", SESS, "DESIGN.md 5 C17", "TLA+ spec + TLC bounded INPUT x reply space, TLC trace validation"),
  "C02": ("model_checking", "TLC enumerates the operator x type matrix, all operator pairs in both groupings rendered with the minimal parentheses of the 13-level table, literal structures and assignments on the TLA+ value specification (BasicValues/BasicExpr), checks TypeLaw on it, and every case is replayed against the real interpreter comparing value, type and error code; seeded random expression trees inside programs are trace-validated.", "DESIGN.md 5 C02", "TLA+ spec + TLC enumeration of the expression grid, spec-to-implementation replay + TLC trace validation"),
  "C07": ("model_checking", "TLC enumerates every string function x argument combination of the grid on the TLA+ string operators (code-point sequences), checks the laws relating them on the specification, and every case is replayed against the real VM (value, type, error code, printed text); MID$ assignment over the same grid as trace-validated sessions.", "DESIGN.md 5 C07", "TLA+ spec + TLC enumeration, spec-to-implementation replay + TLC trace validation"),
